@@ -62,7 +62,7 @@ Defer(k, o) == tasks' = AddTask(tasks, k, o, gep)
 ---------------------------------------------------------------------------
 \* Abstract EBR (contract established by Ebr.tla, observed by the C13/C14 conformance runs)
 Advance == /\ gep < MaxEp
-           /\ \A t \in Thr : Pinned(t) => lep[t] = gep
+           /\ (\A t \in Thr : Pinned(t) => lep[t] = gep) \/ "AdvancePastPinned" \in Mut
            /\ gep' = gep + 1
            /\ UNCHANGED <<mode, lep, cnt, life, lnk, wlnk, tasks, pc, reg, cret, rc, wk, it, sn, ws, nops>>
 
@@ -77,7 +77,7 @@ UnpinChoice(t) ==
 ColExec(t) ==
     /\ pc[t] = "col"
     /\ \E r \in tasks :
-         /\ gep - r.ep >= ExpAge
+         /\ gep - r.ep >= ExpAge \/ "RunUnripe" \in Mut
          /\ tasks' = DelTask(tasks, r)
          /\ reg' = [reg EXCEPT ![t] = [NoReg EXCEPT !.o = r.o, !.ret = "col"]]
          /\ Goto(t, IF r.k = "destruct" THEN "td" ELSE "tdealloc")
